@@ -106,4 +106,261 @@ theorem seek32_R (g : Guts) (dr : Nat) (b : Buffer) (pos ct : Nat) (h : R (Lay32
     rw [hfresh] at this; cases this
   · simp only [hbd]; exact hstate
 
+/-- `R'` plus "the cipher applied `fix` to the state" gives `R`. -/
+theorem R_of_R'_fix (L : Lay) (dr : Nat) (b : Buffer) (pos : Nat) (h : R' L dr b pos) :
+    R L dr { b with state := L.fix b.state } pos := by
+  have hle := blocksDone_le L b pos h.hpos h.hrem h.hhi
+  have hbd : blocksDone { b with state := L.fix b.state } pos = blocksDone b pos := rfl
+  refine ⟨⟨h.hpos, h.hout, h.hlo, h.hhi, h.hrem, ?_, ?_, h.hbuf, h.hlen, h.hfr0, h.hfr1⟩, ?_⟩
+  · intro _; rw [hbd]; exact h.hst2
+  · rw [hbd]; show L.fix (L.fix b.state) = _; rw [h.hst2, L.fix_st _ hle]
+  · rw [hbd]; exact h.hst2
+
+/-- The cipher-level `try_apply_keystream` as "Buffer call, then fix". -/
+theorem Cipher_tryApply_eq (g : Guts) (p : Profile) (c : Cipher) (pos : Nat) (data : List (BitVec 8))
+    (h : RC g c pos) :
+    Cipher.tryApply Mach.ref p c data =
+      (match Buffer.tryApply Mach.ref p c.v.drounds c.buf data with
+       | .ok (b, r) => .ok ({ c with buf := { b with state := (layOf c.v g).fix b.state } }, r)
+       | .err => .err
+       | .panic w => .panic w) := by
+  unfold Cipher.tryApply RC layOf isIetf at *
+  cases hl : c.v.layout <;> simp only [hl] at h ⊢
+  · -- djb
+    cases Buffer.tryApply Mach.ref p c.v.drounds c.buf data with
+    | ok br => rfl
+    | err => rfl
+    | panic w => rfl
+  · -- ietf
+    have hst : c.buf.state = stateAt32 g (BitVec.ofNat 32 (blocksDone c.buf pos)) := h.2
+    have hn0 : lane32 c.buf.state.d 1 = lane32 g.d 1 := by
+      rw [hst]; simp only [stateAt32, lane32_pack32_1]
+    cases Buffer.tryApply Mach.ref p c.v.drounds c.buf data with
+    | ok br => simp only [hn0]; rfl
+    | err => rfl
+    | panic w => rfl
+  · -- x
+    cases Buffer.tryApply Mach.ref p c.v.drounds c.buf data with
+    | ok br => rfl
+    | err => rfl
+    | panic w => rfl
+
+/-- keystream bytes `[pos, pos+m)` of cipher variant `v` on base state `g` -/
+def ksOf (v : Variant) (g : Guts) (pos m : Nat) : List (BitVec 8) := (layOf v g).ks v.drounds pos m
+
+/-- number of keystream bytes of variant `v` -/
+def limitOf (v : Variant) : Nat := 64 * (layOf v ⟨0, 0, 0⟩).T
+
+theorem limitOf_eq (v : Variant) (g : Guts) : 64 * (layOf v g).T = limitOf v := by
+  unfold limitOf layOf; split <;> rfl
+
+theorem limitOf_val (v : Variant) : limitOf v = v.limit := by
+  unfold limitOf layOf isIetf Variant.limit
+  cases v.layout <;> simp <;> rfl
+
+/-- **apply**: inside the keystream XOR exactly the bytes of `[pos, pos+|data|)` and advance;
+    past the end return `Err`, leave data and position unchanged; never panic. -/
+theorem Cipher_apply_step (g : Guts) (p : Profile) (c : Cipher) (pos : Nat) (data : List (BitVec 8))
+    (h : RC g c pos) (hm : data.length < 2 ^ 64) :
+    ∃ c', c'.v = c.v ∧
+      (pos + data.length ≤ limitOf c.v →
+          Cipher.tryApply Mach.ref p c data = .ok (c', some (xorBytes data (ksOf c.v g pos data.length)))
+          ∧ RC g c' (pos + data.length)) ∧
+      (¬ pos + data.length ≤ limitOf c.v →
+          Cipher.tryApply Mach.ref p c data = .ok (c', none) ∧ RC g c' pos) := by
+  obtain ⟨b', hfit, hnofit⟩ := apply_step (layOf c.v g) p c.v.drounds c.buf pos data h hm
+  rw [limitOf_eq c.v g] at hfit hnofit
+  refine ⟨{ c with buf := { b' with state := (layOf c.v g).fix b'.state } }, rfl, ?_, ?_⟩
+  · intro hle
+    obtain ⟨he, hr⟩ := hfit hle
+    rw [Cipher_tryApply_eq g p c pos data h, he]
+    exact ⟨rfl, R_of_R'_fix _ _ _ _ hr⟩
+  · intro hnle
+    obtain ⟨he, hr⟩ := hnofit hnle
+    rw [Cipher_tryApply_eq g p c pos data h, he]
+    exact ⟨rfl, R_of_R'_fix _ _ _ _ hr⟩
+
+
+/-- **seek**: a value of any supported integer type is accepted iff it is a position of the
+    keystream (`0 ≤ v ≤ limit`, and representable as `u64`); the cipher is then at that position.
+    Otherwise `Err` and nothing changes. Never a panic. -/
+theorem Cipher_seek_step (g : Guts) (c : Cipher) (pos : Nat) (v : Int) (h : RC g c pos) :
+    (0 ≤ v ∧ v.toNat < 2 ^ 64 ∧ v.toNat ≤ limitOf c.v →
+        ∃ c', c'.v = c.v ∧ Cipher.trySeek Mach.ref c v = .ok (c', true) ∧ RC g c' v.toNat) ∧
+    (¬ (0 ≤ v ∧ v.toNat < 2 ^ 64 ∧ v.toNat ≤ limitOf c.v) →
+        Cipher.trySeek Mach.ref c v = .ok (c, false)) := by
+  unfold Cipher.trySeek
+  have hlim := limitOf_val c.v
+  unfold RC layOf isIetf at h
+  unfold Variant.limit at hlim
+  constructor
+  · rintro ⟨h0, h64, hl⟩
+    have hn : ¬ (v < 0 ∨ v.toNat ≥ 2 ^ 64) := by omega
+    simp only [hn, if_false]
+    cases hlay : c.v.layout <;> simp only [hlay] at h hlim ⊢
+    · refine ⟨{ c with buf := Buffer.seek64 Mach.ref c.buf v.toNat }, rfl, rfl, ?_⟩
+      show R (layOf c.v g) c.v.drounds _ _
+      simp only [layOf, isIetf, hlay]
+      exact seek64_R g _ _ pos v.toNat h (by omega)
+    · have hle : v.toNat ≤ 2 ^ 38 := by omega
+      have hn2 : ¬ v.toNat > SMALL_LEN * 64 := by unfold SMALL_LEN; omega
+      simp only [hn2, if_false]
+      obtain ⟨b', he, hr⟩ := seek32_R g _ c.buf pos v.toNat h hle
+      rw [he]
+      refine ⟨{ c with buf := b' }, rfl, rfl, ?_⟩
+      show R (layOf c.v g) c.v.drounds _ _
+      simp only [layOf, isIetf, hlay]
+      exact hr
+    · refine ⟨{ c with buf := Buffer.seek64 Mach.ref c.buf v.toNat }, rfl, rfl, ?_⟩
+      show R (layOf c.v g) c.v.drounds _ _
+      simp only [layOf, isIetf, hlay]
+      exact seek64_R g _ _ pos v.toNat h (by omega)
+  · intro hnot
+    by_cases hr : v < 0 ∨ v.toNat ≥ 2 ^ 64
+    · simp only [hr, if_true]
+    · simp only [hr, if_false]
+      cases hlay : c.v.layout <;> simp only [hlay] at h hlim ⊢
+      · exfalso; omega
+      · have : v.toNat > SMALL_LEN * 64 := by unfold SMALL_LEN; omega
+        simp only [this, if_true]
+      · exfalso; omega
+
+
+theorem fromBlockByte_eq (t : SeekTy) (block byte : Nat) (hb : byte ≤ 63) :
+    fromBlockByte t block byte = if block * 64 + byte ≤ t.max then some (block * 64 + byte) else none := by
+  unfold fromBlockByte
+  have hmax : t.max % 64 = 63 := by cases t <;> rfl
+  generalize t.max = mx at *
+  by_cases h1 : block > mx
+  · have : ¬ block * 64 + byte ≤ mx := by omega
+    simp only [h1, if_true, this, if_false]
+  · by_cases h2 : block * 64 > mx
+    · have : ¬ block * 64 + byte ≤ mx := by omega
+      simp only [h1, h2, if_true, if_false, this]
+    · have : block * 64 + byte ≤ mx := by omega
+      simp only [h1, h2, if_false, this, if_true]
+
+/-- the block count `try_current_pos` reconstructs from `len`/`fresh` is the true one -/
+theorem blocks_eq (T n len : Nat) (fresh : Bool) (h64 : Bool) (hT : T = if h64 then 2 ^ 64 else 2 ^ 32)
+    (hn : n ≤ T) (hlen : len = (T - n) % 2 ^ 64)
+    (hf0 : fresh = false → T - n < 2 ^ 64) (hf1 : fresh = true → 2 ^ 64 - 1 ≤ T - n) :
+    (if h64 && len == 0 && !fresh then 2 ^ 64 else wsub64 (if h64 then BIG_LEN else SMALL_LEN) len) = n := by
+  unfold wsub64 BIG_LEN SMALL_LEN
+  cases h64 <;> cases fresh <;> simp only [Bool.true_and, Bool.false_and, Bool.not_true, Bool.not_false,
+    Bool.and_true, Bool.and_false, if_true, if_false, Bool.false_eq_true, beq_iff_eq] at hT hf0 hf1 ⊢
+  · have := hf0 trivial; omega
+  · have := hf1 trivial; omega
+  · have := hf0 trivial; split <;> omega
+  · have := hf1 trivial; omega
+
+/-- **current_pos**: the reported position is the absolute position (or `OverflowError` exactly
+    when it does not fit the requested type); never a panic, in either profile. -/
+theorem Cipher_pos_step (g : Guts) (p : Profile) (c : Cipher) (pos : Nat) (ty : SeekTy) (h : RC g c pos) :
+    Cipher.tryCurrentPos p c ty = .ok (if pos ≤ ty.max then some pos else none) := by
+  unfold RC at h
+  obtain ⟨h, _⟩ := h
+  have hrem := h.hrem
+  have hlo := h.hlo
+  have hhi := h.hhi
+  have hpos := h.hpos
+  have hn := blocksDone_le _ c.buf pos h.hpos h.hrem h.hhi
+  have hT : (layOf c.v g).T = if (c.v.layout != .ietf) then 2 ^ 64 else 2 ^ 32 := by
+    unfold layOf isIetf; cases c.v.layout <;> rfl
+  have hb := blocks_eq (layOf c.v g).T (blocksDone c.buf pos) c.buf.len c.buf.fresh (c.v.layout != .ietf)
+    hT hn h.hlen h.hfr0 (fun hf => (h.hfr1 hf).1)
+  unfold Cipher.tryCurrentPos
+  unfold blocksDone at *
+  cases hlay : c.v.layout <;> simp only [hlay, bne_self_eq_false, Bool.false_and, Bool.false_eq_true, if_false,
+      show (Layout.djb != Layout.ietf) = true from rfl, show (Layout.x != Layout.ietf) = true from rfl,
+      Bool.true_and, if_true] at hb ⊢ <;> rw [hb] <;> clear hb
+  all_goals
+    by_cases hp : c.buf.hav > 0
+    · simp only [hp, if_true] at hrem hn ⊢
+      have h1 : ¬ (pos / 64 + 1 = 0) := by omega
+      have h2 : ¬ c.buf.hav > 64 := by omega
+      simp only [h1, h2, if_false, Nat.add_sub_cancel]
+      rw [fromBlockByte_eq _ _ _ (by omega)]
+      have : pos / 64 * 64 + (64 - c.buf.hav.toNat) = pos := by omega
+      rw [this]
+    · simp only [hp, if_false] at hrem hn ⊢
+      rw [fromBlockByte_eq _ _ _ (by omega)]
+      have : pos / 64 * 64 + (-c.buf.hav).toNat = pos := by omega
+      rw [this]
+
+theorem zeros_length (n : Nat) : (zeros n).length = n := by simp [zeros]
+
+theorem pack64_zero_hi (a b : BitVec 32) :
+    pack64 (BitVec.ofNat 64 0) (lane64 (pack32 0 0 a b) 1) = pack32 0 0 a b := by
+  unfold pack64 lane64 pack32; bv_decide
+
+theorem stateAt64_zero (g : Guts) (a b : BitVec 32) (h : g.d = pack32 0 0 a b) :
+    stateAt64 g (BitVec.ofNat 64 0) = g := by
+  cases g with
+  | mk gb gc gd =>
+    simp only [stateAt64] at *
+    subst h
+    rw [pack64_zero_hi]
+
+theorem stateAt32_zero (g : Guts) (n0 a b : BitVec 32) (h : g.d = pack32 0 n0 a b) :
+    stateAt32 g (BitVec.ofNat 32 0) = g := by
+  cases g with
+  | mk gb gc gd =>
+    simp only [stateAt32] at *
+    subst h
+    simp only [lane32_pack32_1, lane32_pack32_2, lane32_pack32_3]
+    rfl
+
+theorem layOf_ietf (v : Variant) (g : Guts) (h : v.layout = .ietf) : layOf v g = Lay32 g := by
+  simp [layOf, isIetf, h]
+theorem layOf_djb (v : Variant) (g : Guts) (h : v.layout = .djb) : layOf v g = Lay64 g := by
+  simp [layOf, isIetf, h]
+theorem layOf_x (v : Variant) (g : Guts) (h : v.layout = .x) : layOf v g = Lay64 g := by
+  simp [layOf, isIetf, h]
+
+theorem R_init (L : Lay) (dr : Nat) (b : Buffer) (h1 : b.hav = 0) (h2 : b.out.length = 64)
+    (h3 : b.state = L.st 0) (h4 : b.len = L.T % 2 ^ 64) (h5 : b.fresh = false → L.T < 2 ^ 64)
+    (h6 : b.fresh = true → 2 ^ 64 - 1 ≤ L.T) : R L dr b 0 := by
+  have hbd : blocksDone b 0 = 0 := by simp [blocksDone, h1]
+  refine ⟨⟨Nat.zero_le _, h2, by omega, by omega, ?_, ?_, ?_, ?_, ?_, ?_, ?_⟩, ?_⟩
+  · rw [h1]; rfl
+  · intro _; rw [hbd]; exact h3
+  · rw [hbd, h3]; exact L.fix_st 0 (Nat.zero_le _)
+  · intro h; omega
+  · rw [hbd, h4]; rfl
+  · intro hf; rw [hbd]; have := h5 hf; omega
+  · intro hf; rw [hbd]; have := h6 hf; exact ⟨by omega, by intro; omega⟩
+  · rw [hbd]; exact h3
+
+/-- A freshly constructed cipher is at position 0 of the stream its own initial state denotes. -/
+theorem Cipher_new_RC (v : Variant) (key nonce : List (BitVec 8)) (hn : nonce.length = v.nonceLen) :
+    RC (Cipher.new Mach.ref v key nonce).buf.state (Cipher.new Mach.ref v key nonce) 0 := by
+  unfold RC
+  unfold Variant.nonceLen at hn
+  cases hlay : v.layout <;> simp only [hlay] at hn
+  · have h12 : ¬ nonce.length = 12 := by omega
+    have hc : Cipher.new Mach.ref v key nonce = Cipher.mk v (Buffer.mk (initChaCha Mach.ref key nonce) (zeros 64) 0 BIG_LEN true) := by
+      simp [Cipher.new, hlay, h12]
+    rw [hc]; simp only []
+    rw [layOf_djb _ _ hlay]
+    have hst := stateAt64_zero (initChaCha Mach.ref key nonce) _ _ (by simp only [initChaCha, h12, if_false]; rfl)
+    exact R_init _ _ _ rfl (zeros_length 64) hst.symm (by show BIG_LEN = 2 ^ 64 % 2 ^ 64; unfold BIG_LEN; omega)
+      (fun h => by cases h) (fun _ => by show 2 ^ 64 - 1 ≤ 2 ^ 64; omega)
+  · have h12 : nonce.length = 12 := by omega
+    have hc : Cipher.new Mach.ref v key nonce = Cipher.mk v (Buffer.mk (initChaCha Mach.ref key nonce) (zeros 64) 0 SMALL_LEN false) := by
+      simp [Cipher.new, hlay, h12]
+    rw [hc]; simp only []
+    rw [layOf_ietf _ _ hlay]
+    have hst := stateAt32_zero (initChaCha Mach.ref key nonce) _ _ _ (by simp only [initChaCha, h12, if_true]; rfl)
+    exact R_init _ _ _ rfl (zeros_length 64) hst.symm rfl (fun _ => by
+      have hT : (Lay32 (initChaCha Mach.ref key nonce)).T = 2 ^ 32 := rfl
+      rw [hT]; omega) (fun h => by cases h)
+  · have hc : Cipher.new Mach.ref v key nonce = Cipher.mk v (Buffer.mk (initChaChaX Mach.ref key nonce v.drounds) (zeros 64) 0 BIG_LEN true) := by
+      simp [Cipher.new, hlay]
+    rw [hc]; simp only []
+    rw [layOf_x _ _ hlay]
+    have hst := stateAt64_zero (initChaChaX Mach.ref key nonce v.drounds) _ _ rfl
+    exact R_init _ _ _ rfl (zeros_length 64) hst.symm (by show BIG_LEN = 2 ^ 64 % 2 ^ 64; unfold BIG_LEN; omega)
+      (fun h => by cases h) (fun _ => by show 2 ^ 64 - 1 ≤ 2 ^ 64; omega)
+
+
 end CC.ChaCha
